@@ -204,7 +204,7 @@ def run_cfg(ctx, p, cfg):
         cone = p.cone([EXPAND], cut_traits=())
         st = panics.check_cone(r, p, cone, "C19")
         ctx.extra.setdefault("panic_inventory", {})[cfg] = dict(st, cone=len(cone))
-        r.floor("sites", st["sites"], 4)
+        r.floor("sites", st["sites"], 4 if p.meta.get("overflow_checks") else 2)
 
 
 def pred_table(g):
